@@ -65,6 +65,8 @@ class Case:
             return "get_class_type"
         if k in ("dtor", "vdtor"):
             return "~" + self.cname(c)
+        if self.lib.get("samename"):        # the same simple names in every class of the library
+            return "k%dm%d" % (self.i, j)
         return "k%dc%dm%d" % (self.i, c, j)
 
     def ename(self, c, j):
@@ -373,11 +375,23 @@ class Case:
         args.append(self.f1())
         if two and self.lib["files"][1]["src"] == "Icmd":
             args.append(self.f2path())
-        ct = self.command_text()
+        ct = self.command_file_text()
         if ct:
             with open(os.path.join(root, self.f1()[:-2] + ".N"), "w") as f:
                 f.write(ct)
         return args
+
+    def command_file_text(self):
+        """The .N file as written: layouts that all mean the one command of command_text()."""
+        ct = self.command_text()
+        if not ct:
+            return ct
+        body = ct[:-1]
+        cmd, _, par = body.partition(" ")
+        return [ct,                                                   # one line, newline-terminated
+                body,                                                 # last line without a newline
+                "# commands for this library\n\n  %s\t%s   # why\n" % (cmd, par),   # comments, blanks, indentation
+                "\n%s  %s \n# trailing comment without newline" % (cmd, par)][self.i % 4]
 
     def text(self):
         """one-string rendering for reports"""
@@ -386,7 +400,7 @@ class Case:
             out.append("// --- %s  [%s]\n%s" % (self.f2path(), self.lib["files"][1]["src"], self.file_text(2)))
         out.append("// --- %s  [command line]\n%s" % (self.f1(), self.file_text(1)))
         if self.command_text():
-            out.append("// --- .N: " + self.command_text())
+            out.append("// --- .N: " + repr(self.command_file_text()))
         out.append("// min_vis = %s" % self.lib["minvis"])
         return "\n".join(out)
 
